@@ -23,13 +23,13 @@ def prim(rng, e: dict) -> Any:
         if f == "hostname":
             return "host.example.test"
         if f == "byte":
-            return base64.b64encode(rng.choice([b"", b"abc", b"\x00\xff"])).decode()
+            return base64.b64encode(rng.choice([b"", b"abc", b"\x00\xff", b"\xfb\xff\xfe", b"<<???>>"])).decode()
         if f == "uuid":
             return "12345678-1234-5678-1234-567812345678"
         if f == "time":
             return "12:34:56"
         if f == "binary":
-            return base64.b64encode(b"bin\x00").decode()
+            return base64.b64encode(rng.choice([b"bin\x00", b"\xfb\xff", b"\xff\xff\xff", b"<<???>>"])).decode()
         return rng.choice(STRS)
     if k == "integer":
         return rng.choice([0, 1, -7, 2 ** 33])
